@@ -26,7 +26,7 @@
   `Layout.ok flag L P` is the decidable well-formedness predicate: separators are separators,
   literal spellings denote their words, label names are valid and pairwise distinct, and the
   program is *renderable* (`Prog.renderable`: every `br` has a mnemonic, string bodies can be
-  written between quotes, fewer than 65,535 words).
+  written between quotes, and once 65,535 words have been laid out only `.blkw 0` follows).
 
   Import-free (core Lean only): linked into the `lacemodel` driver, which renders every abstract
   program of the C01 correspondence under the canonical layout `Layout.canon`.
